@@ -102,6 +102,15 @@ func (c *prefixedConn) TakeRelayPrefix() []byte {
 	return remaining
 }
 
+// CloseWrite passes a write shutdown through to the wrapped connection so the
+// relay can forward the peer's end of stream (half-close).
+func (c *prefixedConn) CloseWrite() error {
+	if wc, ok := c.Conn.(WriteCloser); ok {
+		return wc.CloseWrite()
+	}
+	return nil
+}
+
 func (c *prefixedConn) Read(p []byte) (int, error) {
 	if c.off < len(c.prefix) {
 		n := copy(p, c.prefix[c.off:])
